@@ -258,6 +258,29 @@ func TestC02(t *testing.T) {
 				t.Fatalf("%v", err)
 			}
 		})
+		// en-passant table: every parent of the shape pawn + 1-2 flanking enemy pawns + kings + one line piece
+		shard, n := evid.Shard()
+		sl, of := shard, n
+		if !evid.Thorough() {
+			of, sl = 4*n, 4*shard+int(evid.Seed()%4)
+		}
+		ok := gen.EPTable(sl, of, func(parent *refchess.Pos, push refchess.Move) bool {
+			b := eng.Direct(parent)
+			succ := parent.Make(push)
+			b.MakeMove(eng.Enc(push))
+			rec.Eval(1)
+			if classify(rec, parent, push, &succ) {
+				rec.NT(evid.H("ept", parent.FEN()))
+			}
+			if d := successorDiff(b, &succ); d != "" {
+				rec.Violate("ep_table", fmt.Sprintf("%s then %v: %s", parent.FEN(), push, d), Case{FEN: parent.FEN(), Moves: []string{push.String()}})
+				return false
+			}
+			return true
+		})
+		if ok && evid.Thorough() {
+			rec.Exhaustive("en-passant table: pawn on 2nd rank, 1-2 enemy pawns beside its 4th-rank square, both kings and one line piece of either colour anywhere (complete)")
+		}
 	}, func(check string, raw json.RawMessage) error {
 		var c Case
 		if err := json.Unmarshal(raw, &c); err != nil {
